@@ -201,15 +201,18 @@ Definition rs_txns (st : run_state) : list txn := map txn_of (rs_sel st).
 Section Digest.
   Variable H : list N -> list N.
 
-  Definition run_prepare (cfg : run_cfg) (jtext : list N) (ptext : option (list N)) : res run_state :=
-    res_bind (price_setup cfg ptext) (fun pr =>
-    res_bind (load cfg jtext) (fun js =>
+  (* from the loaded (sorted) transactions on: selection, metadata, empty-set test *)
+  Definition prepare_from (cfg : run_cfg) (pr : list pentry * (lookup * list pentry)) (js : list jtxn) : res run_state :=
     let sel := run_filter cfg js in
     res_bind (MetaText.make_items H (rc_audit cfg) (rc_algo cfg) None (filter_desc cfg) (map uuid_of sel)) (fun md =>
     match sel with
     | [] => Err E_empty_set
     | _ => Ok (mkRunState sel md (fst pr) (fst (snd pr)) (snd (snd pr)))
-    end))).
+    end).
+
+  Definition run_prepare (cfg : run_cfg) (jtext : list N) (ptext : option (list N)) : res run_state :=
+    res_bind (price_setup cfg ptext) (fun pr =>
+    res_bind (load cfg jtext) (prepare_from cfg pr)).
 
   (* ---------------------------------------------------------------- one report *)
   Definition report_prices (cfg : run_cfg) (st : run_state) : list MetaText.price_rec :=
@@ -246,16 +249,20 @@ Section Digest.
 
   (* the complete standard output of the run without --output.dir.  main.rs calls write_txt_reports only
      `if !reports.is_empty()`: without a report target nothing is printed, not even the metadata *)
-  Definition run_console (cfg : run_cfg) (jtext : list N) (ptext : option (list N)) : res (list N) :=
-    res_bind (run_prepare cfg jtext ptext) (fun st =>
+  Definition console_with (cfg : run_cfg) (md : option (list MetaText.item))
+             (rt : MetaText.report_kind -> option (list N)) : res (list N) :=
     match rc_targets cfg with
     | [] => Ok []
     | _ =>
-        match mapO (report_text cfg st) (rc_targets cfg) with
-        | Some rs => Ok (console_text (rs_md st) rs)
+        match mapO rt (rc_targets cfg) with
+        | Some rs => Ok (console_text md rs)
         | None => Err E_report
         end
-    end).
+    end.
+  Definition console_of (cfg : run_cfg) (st : run_state) : res (list N) :=
+    console_with cfg (rs_md st) (report_text cfg st).
+  Definition run_console (cfg : run_cfg) (jtext : list N) (ptext : option (list N)) : res (list N) :=
+    res_bind (run_prepare cfg jtext ptext) (console_of cfg).
 
   (* ---------------------------------------------------------------- file mode *)
   Definition kind_name (k : MetaText.report_kind) : list N :=
@@ -311,25 +318,33 @@ Section Digest.
     | XIdentity => Some (print_journal (rs_sel st))
     end.
 
-  Definition report_entry (cfg : run_cfg) (st : run_state) (k : MetaText.report_kind)
+  (* one entry per destination: (file name, content, announcement); rt / xf = the text of a report / export *)
+  Definition report_entry_with (cfg : run_cfg) (md : option (list MetaText.item))
+             (rt : MetaText.report_kind -> option (list N)) (k : MetaText.report_kind)
     : option (list N * list N * list N) :=
     let fname := file_name cfg (kind_name k) ext_txt in
-    option_map (fun c => (fname, c, announce (kind_label k) (file_path cfg fname))) (report_file cfg st k).
-  Definition export_entry (cfg : run_cfg) (st : run_state) (x : export_kind)
+    option_map (fun c => (fname, c, announce (kind_label k) (file_path cfg fname)))
+               (option_map (fun r => MetaText.file_head md ++ r) (rt k)).
+  Definition export_entry_with (cfg : run_cfg) (xf : export_kind -> option (list N)) (x : export_kind)
     : option (list N * list N * list N) :=
     let fname := file_name cfg (export_name x) ext_txn in
-    option_map (fun c => (fname, c, announce (export_label x) (file_path cfg fname))) (export_file cfg st x).
+    option_map (fun c => (fname, c, announce (export_label x) (file_path cfg fname))) (xf x).
 
   (* the files written into a fresh output directory (name, content), in the order they are created, and
      the standard output (the announcements).  Existing destinations and write failures are C14's
      subject (Output.v); here every create_new and write succeeds. *)
-  Definition run_files (cfg : run_cfg) (jtext : list N) (ptext : option (list N))
+  Definition files_with (cfg : run_cfg) (md : option (list MetaText.item))
+             (rt : MetaText.report_kind -> option (list N)) (xf : export_kind -> option (list N))
     : res (list (list N * list N) * list N) :=
-    res_bind (run_prepare cfg jtext ptext) (fun st =>
-    match mapO (report_entry cfg st) (rc_targets cfg), mapO (export_entry cfg st) (rc_exports cfg) with
+    match mapO (report_entry_with cfg md rt) (rc_targets cfg), mapO (export_entry_with cfg xf) (rc_exports cfg) with
     | Some rs, Some xs =>
         let all := rs ++ xs in
         Ok (map (fun e => (fst (fst e), snd (fst e))) all, concat (map snd all))
     | _, _ => Err E_report
-    end).
+    end.
+  Definition files_of (cfg : run_cfg) (st : run_state) : res (list (list N * list N) * list N) :=
+    files_with cfg (rs_md st) (report_text cfg st) (export_file cfg st).
+  Definition run_files (cfg : run_cfg) (jtext : list N) (ptext : option (list N))
+    : res (list (list N * list N) * list N) :=
+    res_bind (run_prepare cfg jtext ptext) (files_of cfg).
 End Digest.
